@@ -67,6 +67,9 @@ import Sds.Proofs.Glue5
 import Sds.Proofs.Glue
 import Sds.Proofs.GenEqIdx
 import Sds.Proofs.GenEqLoop3
+import Sds.Proofs.GenEqRL1
+import Sds.Proofs.GenEqConstr
+import Sds.Proofs.GenEqRL2
 
 namespace Sds.C03
 open Sds Outcome
@@ -590,5 +593,74 @@ theorem rl_internals_as_translated_from_source (m : Mode) (v : RL) (block offset
   ⟨GenEq.rl_blocks_eq m v, GenEq.rl_run_iter_eq m v, fun hb => GenEq.rl_ones_after_eq_of_lt m v block hs hb,
    fun hbl hb => GenEq.rl_iter_for_block_eq_of_lt m v block (Nat.le_of_lt hd) hbl hb,
    fun h => GenEq.rl_decode_eq m v offset hd h, fun hl hh => GenEq.rl_block_for_eq m low high value f hl hh⟩
+
+/-! **The run-length vector's query paths as translated from the source on this run** (`Generated/FnsRL.lean`):
+`RunIter::advance_if` (decode the next run only when needed, consult the closure, advance), `RunIter::next`,
+`rank_zero` / `offset_for` / `rank_at`, `iter_for_bit` / `iter_for_one` / `iter_for_zero` (sample-index range, then the
+binary search `block_for` over the block samples with the closures of the source), and `get` / `rank` with their `while let`
+loops.  On every vector within the representation bounds (`RLBounds`: data addressable, and — release builds only — no
+23-unit code, observation O9; `RangeOK`: the sample index returns an ordered range, which `rangeOK_of_valid` derives for
+every index built by `SampleIndex::new`) the code as it is NOW equals the model the theorems above are about.
+`advance_if` is stated for an ARBITRARY closure against `advanceIfLazy`, which consults the closure before the two final
+additions exactly like the source (observation O13: the model's `peek` adds first). -/
+theorem rl_queries_as_translated_from_source {m : Mode} {v : RL} (hb : GenEq.RLBounds m v) :
+    (∀ it adv, Generated.gen_RunIter_advance_if m v it adv = GenEq.advanceIfLazy m v it adv) ∧
+    (∀ it, Generated.gen_RunIter_next m v it = it.nextQ m v) ∧
+    (∀ it, Generated.gen_RunIter_rank_zero m v it = it.rankZero m) ∧
+    (∀ it r, Generated.gen_RunIter_offset_for m v it r = it.offsetFor m r) ∧
+    (∀ it i, Generated.gen_RunIter_rank_at m v it i = it.rankAt m i) ∧
+    Generated.gen_RLVector_count_zeros m v = subM m v.len v.ones ∧
+    Generated.gen_RLVector_iter m v = v.iter ∧
+    Generated.gen_RLVector_one_iter m v = v.oneIter ∧
+    (v.len < U64 → ∀ index, (index < v.len → GenEq.RangeOK v.rankIndex index) →
+        Generated.gen_RLVector_iter_for_bit m v index = v.iterForBit index ∧
+        Generated.gen_RLVector_get m v index = v.get m index ∧
+        Generated.gen_RLVector_rank m v index = v.rank m index) ∧
+    (v.ones < U64 → ∀ rank, (rank < v.ones → GenEq.RangeOK v.selectIndex rank) →
+        Generated.gen_RLVector_iter_for_one m v rank = v.iterForOne rank) ∧
+    (v.len < U64 → v.ones ≤ v.len → ∀ rank, (rank < v.countZeros → GenEq.RangeOK v.selectZeroIndex rank) →
+        Generated.gen_RLVector_iter_for_zero m v rank = v.iterForZero m rank) :=
+  ⟨fun it adv => GenEq.run_advance_if_lazy hb it adv, fun it => GenEq.run_next_eq hb it,
+   GenEq.run_rank_zero_eq m v, GenEq.run_offset_for_eq m v, GenEq.run_rank_at_eq m v, GenEq.rl_count_zeros_eq m v,
+   GenEq.rl_iter_eq m v, GenEq.rl_one_iter_eq m v,
+   fun hlen index hr => ⟨GenEq.rl_iter_for_bit_eq m v index hlen hr, GenEq.rl_get_eq hb index hlen hr,
+     GenEq.rl_rank_eq hb index hlen hr⟩,
+   fun ho rank hr => GenEq.rl_iter_for_one_eq m v rank ho hr,
+   fun hlen hol rank hr => GenEq.rl_iter_for_zero_eq m v rank hlen hol hr⟩
+
+/-- … in particular on every vector the builder produces (`RLQ.GoodB`) whose data is addressable -/
+theorem rl_get_rank_as_translated_on_built_vectors {m : Mode} {v : RL} {bl : RLQ.Blocks} (g : RLQ.GoodB v bl)
+    (hd : v.data.len + 63 < U64) (hdec : m = .wrapping → ∀ o, ¬ GenEq.units23 v o) (index : Nat) :
+    Generated.gen_RLVector_get m v index = v.get m index ∧ Generated.gen_RLVector_rank m v index = v.rank m index :=
+  ⟨GenEq.rl_get_eq_good g hd hdec index, GenEq.rl_rank_eq_good g hd hdec index⟩
+
+/-! **`SampleIndex::new` as translated from the source on this run** (`Generated/FnsConstr.lean`): `parameters`, the
+`with_len` allocation, the two `next()` calls and `assert_eq!(prev, 0)`, the `for sample in 1..` loop with its inner
+`while` (`break` above the threshold, `assert!(prev <= value)`, `offset += 1`, `next()`), `set`, the final assertion —
+equal to the model's `SampleIndex.new` on every iterator (the list of its items) of fewer than 2^60 items. -/
+theorem sample_index_new_as_translated_from_source (m : Mode) (values : List Nat) (univ : Nat)
+    (hu : univ < U64) (hlen : values.length < 2 ^ 60) :
+    Generated.gen_SampleIndex_new m values univ = SampleIndex.new m values univ :=
+  GenEq.sample_index_new_eq m values univ hu hlen
+
+/-! **`select`, `select_zero`, `successor` and the positioned iterators of the run-length vector as translated from the
+source on this run** (`Generated/FnsRL.lean`): `select` / `select_iter` (`iter_for_one`, then the `while` that advances run
+by run until the run holding the rank), `zero_iter`, `select_zero` / `select_zero_iter` (`iter_for_zero`, the loop over
+gaps), `successor` (`iter_for_bit`, the loop to the first run ending after the value) — each equal to the model function
+of the theorems above under the same representation bounds as `rl_queries_as_translated_from_source`. -/
+theorem rl_select_family_as_translated_from_source {m : Mode} {v : RL} (hb : GenEq.RLBounds m v) :
+    (v.ones < U64 → ∀ rank, (rank < v.ones → GenEq.RangeOK v.selectIndex rank) →
+        Generated.gen_RLVector_select m v rank = v.select m rank ∧
+        Generated.gen_RLVector_select_iter m v rank = v.selectIter m rank) ∧
+    Generated.gen_RLVector_zero_iter m v = v.zeroIter m ∧
+    (v.len < U64 → v.ones ≤ v.len → ∀ rank, (rank < v.countZeros → GenEq.RangeOK v.selectZeroIndex rank) →
+        Generated.gen_RLVector_select_zero m v rank = v.selectZero m rank ∧
+        Generated.gen_RLVector_select_zero_iter m v rank = v.selectZeroIter m rank) ∧
+    (v.len < U64 → ∀ value, (value < v.len → GenEq.RangeOK v.rankIndex value) →
+        Generated.gen_RLVector_successor m v value = v.successor m value) :=
+  ⟨fun ho rank hr => ⟨GenEq.rl_select_eq hb rank ho hr, GenEq.rl_select_iter_eq hb rank ho hr⟩,
+   GenEq.rl_zero_iter_eq hb,
+   fun hlen hol rank hr => ⟨GenEq.rl_select_zero_eq hb rank hlen hol hr, GenEq.rl_select_zero_iter_eq hb rank hlen hol hr⟩,
+   fun hlen value hr => GenEq.rl_successor_eq hb value hlen hr⟩
 
 end Sds.C03
